@@ -181,7 +181,8 @@ PUSH_TRUSTED = ["abstract file system RQ/Model/FS.lean stands for the kernel (le
 PROPS['C10'] = {
     'theorems': ['RQ.Push.C10_no_write', 'RQ.Push.applyLoop_dry_same_final'],
     'verdict': 'C10',
-    'jobs': push_jobs(['dry=50', 'inv=2'], ['dry=50', 'inv=3']),
+    'jobs': push_jobs(['dry=50', 'inv=2'], ['dry=50', 'inv=3'], nq=4000) +
+            [{'quick': ['pushsched', 'seed={seed}', 'n=900', 'perws=3', 'dry=100', 'fail=90', 'morefail=85'], 'thorough': ['pushsched', 'seed={seed}', 'n=30000', 'perws=6', 'dry=100', 'fail=90', 'morefail=85']}],
     'nontrivial': lambda l: '--dry-run' in l.split('|=>|')[0],
     'histogram': push_hist,
     'rule': PUSH_RULE + "; here 50% of the invocations carry --dry-run; non-trivial = has a --dry-run invocation",
@@ -362,10 +363,12 @@ PROPS['C13'] = {
 PROPS['C05'] = {
     'theorems': ['RQ.Abs.C05_apply_refines', 'RQ.Abs.C05_exit_and_names'],
     'verdict': 'SPEC',
-    'jobs': push_jobs(['inv=2', 'patches=5'], ['inv=3', 'patches=6']),
+    'jobs': push_jobs(['inv=2', 'patches=5'], ['inv=3', 'patches=6'], nq=4000) +
+            [{'quick': ['pushsched', 'seed={seed}', 'n=900', 'perws=3', 'fail=75', 'morefail=70'], 'thorough': ['pushsched', 'seed={seed}', 'n=30000', 'perws=6', 'fail=75', 'morefail=70']}],
+    'par_verdict': 'C06',
     'nontrivial': push_nontrivial,
     'histogram': push_hist,
-    'rule': PUSH_RULE,
+    'rule': PUSH_RULE + "; plus parallel runs (--threads 2-16) under forced random schedules of the baton hook (see C06), which must leave the same tree / .pc / exit status",
     'explanation': "Theorem C05_apply_refines: for every file system, configuration and range, the driver model's application "
                    "loop (ModifiedFile cache, partial application of the failing patch, LIFO rollback incl. rename undo, reject "
                    "rendering) computes exactly RQ.Abs.applyRange - file patches applied to the tree one after another, the "
@@ -428,7 +431,7 @@ PROPS['C18'] = {
 PROPS['C06'] = {
     'theorems': ['RQ.Par.C06_apply_phase', 'RQ.Par.C06_queues_sorted', 'RQ.Par.C06_frame', 'RQ.Par.C06_local', 'RQ.Par.C06_commute', 'RQ.Par.C06_disjoint'],
     'verdict': 'C06',
-    'jobs': [{'quick': ['pushsched', 'seed={seed}', 'n=900', 'perws=3'], 'thorough': ['pushsched', 'seed={seed}', 'n=30000', 'perws=6']}] +
+    'jobs': [{'quick': ['pushsched', 'seed={seed}', 'n=900', 'perws=3', 'fail=75', 'morefail=70'], 'thorough': ['pushsched', 'seed={seed}', 'n=30000', 'perws=6', 'fail=75', 'morefail=70']}] +
             push_jobs(['threads=2,3,4,8,16', 'inv=2'], ['threads=2,3,4,8,16', 'inv=3'], nq=2500, nt=60000),
     'nontrivial': lambda l: l.split('|=>|')[-1].count('2f') > 0,
     'histogram': push_hist,
